@@ -843,6 +843,17 @@ def real_pools(res):
     res.notes += out['observations']
 
 
+def deep_failures(res):
+    """both tiers: real worker processes, the function fails at the bottom of a deep call chain (beyond
+    the frames the exception record keeps) or by runaway recursion"""
+    out = core.run_driver('reasm_driver.py', dict(mode='deep'), timeout=300)
+    res.add_cov(evaluations=out['runs'], traces=out['runs'],
+                rule='real billiard.Pool(2): apply/map/imap of functions raising from 5..900 frames down and by runaway '
+                     'recursion: same type and args, RemoteTraceback cause, imap raises at the position and goes on')
+    for bad in out['bad']:
+        res.alarms.append(dict(signature=bad['signature'], what=bad['what'], replay=dict(pool_case=bad['case'])))
+
+
 def run(res):
     res.proof_step('Props/C02.v', extra_targets=['Model/Reassembly.vo', 'Model/Pool.vo'], kernels_needed=['K_reassembly'])
     n = 600 if res.tier == 'quick' else 20000
@@ -856,6 +867,7 @@ def run(res):
                   focus={'map': 7, 'imap': 9, 'imapu': 6, 'feed': 12, 'ready': 12, 'ack': 6, 'next': 9, 'apply': 2,
                          'exit': 1, 'tick': 2, 'scan': 0.5, 'scan_block': 0.3, 'advance': 2, 'advance_deadline': 1,
                          'terminate_job': 0.3, 'grow': 0.2, 'shrink': 0.2, 'close': 0.2})
+    deep_failures(res)
     if res.tier != 'quick':
         real_pools(res)
     res.assumptions += [
